@@ -1,8 +1,8 @@
 (** C05 — symbolic derivatives denote the true derivative on the original's domain.
     as_expression() is covered modulo KF-ROOT (the hypothesis [good_trace]: no even/even
     root-of-power rewrite was applied); see C08 for the refutation outside it. *)
-From SM Require Import Spec.
-From SM.proofs Require Import SynthSound Glue OrderIndep.
+From SM Require Import Spec SpecMore.
+From SM.proofs Require Import SynthSound Glue OrderIndep SecondOrder.
 
 Theorem C05_synth_fwd_sound : Spec.C05_synth_fwd_sound.
 Proof. exact synth_fwd_sound. Qed.
@@ -11,6 +11,10 @@ Proof. exact synth_rev_sound. Qed.
 Theorem C05_as_expression_sound : Spec.C05_as_expression_sound.
 Proof. exact as_expression_sound. Qed.
 
+Theorem C05_second_order : SpecMore.C05_second_order.
+Proof. exact second_order. Qed.
+
 Print Assumptions C05_synth_fwd_sound.
 Print Assumptions C05_synth_rev_sound.
 Print Assumptions C05_as_expression_sound.
+Print Assumptions C05_second_order.
